@@ -181,7 +181,7 @@ pub fn run(tier: Tier) -> i32 {
                 let via_router = (i + rank_pattern) % 64 == 0;
                 let case = Case { shapes: shapes.clone(), rank_pattern, sampling_override, via_router, rotation: (i + ctx.seed as usize) % 4 };
                 ctx.eval(CODES.len() as u64);
-                for (sig, what) in check_case(&case, &rc) {
+                for (sig, what) in crate::common::run_case(|| serde_json::to_value(&case).unwrap(), || check_case(&case, &rc)) {
                     ctx.report(Violation { signature: sig, what, case: serde_json::to_value(&case).unwrap(), weight: shapes.len() as u64 });
                 }
                 if i % 37 == 0 {
